@@ -40,3 +40,17 @@ Theorem C08_create_endpoint_reads_the_body_itself :
   existsb (fun p => String.eqb (fst p) "createFile" && snd p) Handlers.handler_recognised = true.
 Proof. vm_compute. reflexivity. Qed.
 Print Assumptions C08_create_endpoint_reads_the_body_itself.
+
+(* from the input text: an accepted text - brace-free leading text, then segments separated by any runs of line
+   breaks, read to a clean end of file under any chunking - in which no tag repeats: every one of its segments
+   parsed (one result per segment) and each result is the tag held by the returned message *)
+From Wire Require Import Theory.ScanSpec Theory.Segments Theory.SegmentsGen.
+
+Theorem C08_every_segment_of_an_accepted_text_is_in_the_message : forall preset opts lead pairs chunks m,
+  no_brace lead = true -> forallb pair_ok pairs = true -> length (lead ++ text2 pairs) < max_token ->
+  concat chunks = lead ++ text2 pairs ->
+  read_model preset opts chunks FEOF = ROk m ->
+  exists asg, results_of (map fst pairs) 0 = Some asg /\ length asg = length pairs /\
+    (NoDup (map fst asg) -> forall i v, In (i, v) asg -> i < length (m_tags m) -> nth i (m_tags m) None = Some v).
+Proof. exact accepted_text_reflects_every_segment. Qed.
+Print Assumptions C08_every_segment_of_an_accepted_text_is_in_the_message.
